@@ -1039,6 +1039,13 @@ func (c *Cluster) doCompact(s Step) bool {
 	if s.K < fi || s.K > snap.GetMetadata().GetIndex() {
 		return false
 	}
+	// "It is the application's responsibility to not attempt to compact an index greater
+	// than raftLog.applied" (after a restart with a smaller Applied, raft re-delivers)
+	if n.RN != nil {
+		if st, perr := safeState(n.RN); perr != "" || s.K > st.Applied {
+			return false
+		}
+	}
 	if err := n.St.Compact(s.K); err != nil {
 		return false
 	}
